@@ -290,8 +290,21 @@ def check_object(ctx, R, spec, sj, L, state, rng):
         if state in ('uncached', 'complete', 'fresh-sequence', 'late-cached', 'late-uncached', 'many-consumers', 'nested-cached'):
             # one object, all queries in random order: answers must not depend on which queries ran before
             obj = prepare(R, spec, L, 'fresh' if state == 'fresh-sequence' else state, rng)
+            # two generators stay open across all the queries and are advanced by one item between them: what an open
+            # iteration yields next does not depend on the queries that ran in between (and vice versa)
+            open_it, open_xa, k = iter(obj), (obj.xafter(L[0] - D.timedelta(seconds=1)) if L else iter(())), 0
             for q in qs:
                 one_query(ctx, spec, sj, L, obj, q, state)
+                if k <= len(L) and state != 'many-consumers':
+                    want = L[k] if k < len(L) else None
+                    a, b2 = outcome(lambda: next(open_it, None)), outcome(lambda: next(open_xa, None))
+                    ctx.ev()
+                    ctx.count('interleaved_generator_steps')
+                    if a != ('ok', want) or b2 != ('ok', want):
+                        ctx.violation('open-generator-disturbed-by-query', {'spec': sj, 'initial_state': state, 'position': k, 'query_before': q_json(q), 'len': len(L)},
+                                      'iter -> %r, xafter -> %r, the list has %r at this position' % (a, b2, want))
+                        k = len(L) + 1
+                    k += 1
         else:
             # a new object per query, so that every query kind is observed on an incomplete cache
             for q in rng.sample(qs, min(30, len(qs))):
@@ -351,6 +364,38 @@ def check_replace(ctx, R, kw, rng):
             ctx.violation('replace-identity', {'kw': U.kw_json(kw), 'cache': c}, 'replace() with unchanged parameters differs')
 
 
+def aware_queries(ctx, R):
+    """rules with an aware start in zones whose offset depends on the date: a query argument denoting the same instant
+    in another zone is the same datetime (x in rule iff x in list(rule), after / before / between likewise)"""
+    from dateutil import tz
+    zones = [tz.tzstr('EST5EDT,M3.2.0/2,M11.1.0/2'), tz.tzrange('CET', 3600, 'CEST', 7200), tz.gettz('Australia/Sydney'), tz.tzoffset('FIX', -12600)]
+    others = [tz.UTC, tz.tzoffset('IST', 19800), tz.tzstr('AEST-10AEDT,M10.1.0,M4.1.0/3')]
+    for zi, z in enumerate(zones):
+        if z is None:
+            continue
+        for freq, extra in ((R.DAILY, {'count': 14}), (R.WEEKLY, {'count': 8, 'byweekday': [R.MO, R.SA]}), (R.MONTHLY, {'count': 8, 'bymonthday': [1, -1]}),
+                            (R.YEARLY, {'count': 4, 'bymonth': [3, 11], 'bymonthday': [10]}), (R.HOURLY, {'count': 30, 'interval': 5})):
+            for cache in (False, True):
+                kw = dict(freq=freq, dtstart=D.datetime(2020, 2, 25, 9, 30, tzinfo=z), **extra)
+                rule = R.rrule(cache=cache, **kw)
+                L = list(R.rrule(**kw))
+                for i, x in enumerate(L):
+                    for o in others:
+                        y = x.astimezone(o)
+                        late = y + D.timedelta(seconds=1)
+                        got = outcome(lambda: (y in rule, late in rule, rule.after(y, inc=True), rule.before(y, inc=True), rule.between(y, y, inc=True),
+                                               rule.after(y), rule.before(late)))
+                        exp = ('ok', (True, False, x, x, [x], L[i + 1] if i + 1 < len(L) else None, x))
+                        ctx.ev()
+                        ctx.count('aware_queries_other_zone')
+                        ctx.distinct('aware|%d|%d|%s|%s' % (zi, freq, cache, o.tzname(None)))
+                        if got != exp:
+                            ctx.violation('aware-query-in-another-zone', {'workload': 'aware-queries', 'zone': repr(z), 'freq': freq, 'cache': cache,
+                                                                          'occurrence': x.isoformat(), 'asked_as': y.isoformat()},
+                                          '(in, in+1s, after inc, before inc, between, after, before+1s) = %r, expected %r' % (got, exp))
+                            break
+
+
 def directed_specs(R):
     """object shapes every run must contain, whatever the seed draws: BYSETPOS rules ended by COUNT and by UNTIL, lengths
     at the cache fill batch, empty and single-element rules, sets with coinciding and fully excluded members"""
@@ -371,6 +416,8 @@ def directed_specs(R):
 
 def run(ctx):
     from dateutil import rrule as R
+    if ctx.shard == 0:
+        aware_queries(ctx, R)
     rng = ctx.rng
     directed = directed_specs(R)
     for i in range(-len(directed), N_CASES[ctx.tier]):
@@ -420,6 +467,10 @@ def floors(agg, tier):
     for s in ('uncached', 'fresh', 'partial', 'complete'):
         if c.get('state_' + s, 0) < need // 30:
             out.append('cache state %s observed at only %d calls' % (s, c.get('state_' + s, 0)))
+    if c.get('aware_queries_other_zone', 0) < 1000:
+        out.append('only %d aware queries asked in another zone' % c.get('aware_queries_other_zone', 0))
+    if c.get('interleaved_generator_steps', 0) < 5000:
+        out.append('only %d interleaved generator steps' % c.get('interleaved_generator_steps', 0))
     if c.get('nested_cached_objects', 0) < 40:
         out.append('only %d cached sets with cached members' % c.get('nested_cached_objects', 0))
     if c.get('objects_set', 0) < 50 or c.get('objects_rule', 0) < 100:
@@ -432,7 +483,9 @@ def floors(agg, tier):
 def replay(ctx, case):
     from dateutil import rrule as R
     import random
-    if 'spec' in case:
+    if case.get('workload') == 'aware-queries':
+        aware_queries(ctx, R)
+    elif 'spec' in case:
         spec = spec_from_json(case['spec'], R)
         L = list(build(R, spec, False))
         check_object(ctx, R, spec, case['spec'], L, case.get('initial_state', 'uncached'), random.Random(0))
